@@ -32,6 +32,8 @@ def _patches(props):
         if os.path.exists(meta) and os.path.exists(patch):
             with open(meta) as f:
                 m = json.load(f)
+            if m.get("selftest") == "skip":
+                continue   # kept for the record: judged not to break the property as documented (meta.json says why)
             out.append((m.get("property", os.path.basename(d).split("-")[0]), patch, "seeded/" + os.path.basename(d), m.get("base", "HEAD")))
     if props:
         out = [p for p in out if p[0] in props]
